@@ -21,6 +21,7 @@ FAMILIES = {
     'layout': 'pvf.contracts.layout',
     'runpretty': 'pvf.contracts.runpretty',
     'strings': 'pvf.contracts.strings',
+    'normalize': 'pvf.contracts.layout_norm',
 }
 
 
